@@ -262,7 +262,8 @@ def run_case(files, tree: str, rf: Tuple[int, ...], names: List[str], assign: Tu
             js_expect = v_cfg
             if typ in ("int", "hex", "float") and v_cfg == "":
                 js_expect = None  # documented: a number without value is null in JSON
-            expect = {"header": v_cfg, "cmake": v_cfg, "json": js_expect, "autoconf": v_cfg}
+            # a number without a value: null in JSON, no #define in the header (nothing to define), empty elsewhere
+            expect = {"header": (None if (typ in ("int", "hex", "float") and v_cfg == "") else v_cfg), "cmake": v_cfg, "json": js_expect, "autoconf": v_cfg}
             if typ in ("int", "hex", "float") and v_cfg == "" and name in js and js[name] is None:
                 got["json"] = None
         for f in expect:
